@@ -12,19 +12,63 @@ def build(ck):
             "h_c08a": ck.harness("h_c08a", SRC, profile="asan", **kw)}
 
 
-RULE = "TBD"
-ASSUME = []
+RULE = ("all histories of <= D top-level ops over the ops enabled in the current world {load a, load b (inherits a: loads a on "
+        "the way), load b vetoed by master valid_object, clone a (<= 2 clones), move(x,y) for all ordered pairs of live objects "
+        "incl. x=y and into own inventory, destruct(x), enable_commands+set_living_name(x) (two names that collide in the living "
+        "hash, shared by two objects each), set_heart_beat+call_out(x), command \"v\" by a living x (every init() adds the verb, "
+        "so all sentences are tried), tick (real call_heart_beat: heart beats + call_out sweep), remove_destructed_objects} from 4 "
+        "initial worlds (empty / 3 objects flat / chain c in a in b with a living / two siblings in a, one living with timers); "
+        "population <= 4 (blueprints a b, 2 clones; a destructed blueprint may be loaded again under its name); deviations "
+        "(budget B) decided at the entry of every create/init/move_or_destruct/verb hook: the hook's script {error(), move(any -> "
+        "any) 16, destruct(any) 4, load a|b, clone, become living, verb returns 1 (+ after destructing itself)}; an object "
+        "destructed in the middle of one of its own functions then tries enable_commands/set_living_name/set_heart_beat/call_out/"
+        "add_action/move_object on itself; epilogue: cleanup, tick, a command by every living object, cleanup; ObjectHashSize 2 / "
+        "4 / default.  After every step: (1) walker over obj_list, the name hash (wrapper TU), super/contains/next_inv, "
+        "obj_list_destruct, hashed_living, the heart-beat list and the sentence lists; (2) abstract world (driven by the ops and "
+        "the begin/end records of the LPC side, with the documented move_or_destruct protocol) vs the driver structures; (3) "
+        "find_object/environment/all_inventory/first+next_inventory/deep_inventory/present/objects()/livings()/find_living() and "
+        "array-slot/mapping-value/variable references read through LPC vs the abstract world; (4) at the first instruction of "
+        "every hook (H1): the called object and this_player() are not destructed.  Canonical state = abstract world + inventory "
+        "order + sentence lists + heart-beat order + living-hash chains + sentence free-list length + cleanup backlog + step")
+
+ASSUME = ["ops are carried out by a registry object on behalf of the population (call_other from a destructed object is a no-op, so "
+          "an object cannot report what it does after its own destruction)",
+          "cloning a program switches off the heart beat of its blueprint (clone_object does so on purpose); the model contains this",
+          "the driver destructs an inventory item that did not move in move_or_destruct only while it is still the first item; an "
+          "unmoved item nested in a destruct that was itself issued from a move_or_destruct hook makes the driver raise 'Only "
+          "this_object() can be destructed from move_or_destruct' and abandon the whole destruct (state stays consistent); the "
+          "model contains both rules",
+          "input_to is not in the alphabet (needs an interactive connection; C09/C12 cover the connection side)",
+          "errors raised while a scripted hook deviation is in flight are accepted as long as every invariant holds afterwards"]
 
 
 def run(ck):
     ex = build(ck)
     P, A = ex["h_c08"], ex["h_c08a"]
     if ck.tier == "quick":
-        ck.explore(P, ["--depth=3", "--ohash=2"], "d3-hash2", budget=1, deadline_s=150, jobs=JOBS)
+        ck.explore(P, ["--depth=3", "--ohash=2"], "d3-b1-hash2", budget=1, deadline_s=120, jobs=JOBS)
+        ck.explore(P, ["--depth=2", "--ohash=3"], "d2-b1-hash4", budget=1, deadline_s=25, jobs=JOBS)
+        ck.explore(P, ["--depth=2", "--ohash=0"], "d2-b1-hash-default", budget=1, deadline_s=25, jobs=JOBS)
+        ck.explore(A, ["--depth=2", "--ohash=2"], "d2-b1-hash2-asan", budget=1, deadline_s=50, jobs=JOBS)
     else:
-        ck.explore(P, ["--depth=4", "--ohash=2"], "d4-hash2", budget=1, deadline_s=1500, jobs=JOBS)
+        ck.explore(P, ["--depth=4", "--ohash=2"], "d4-b1-hash2", budget=1, deadline_s=1100, jobs=JOBS)
+        ck.explore(P, ["--depth=2", "--ohash=2"], "d2-b2-hash2", budget=2, min_budget=2, deadline_s=300, jobs=JOBS)
+        ck.explore(P, ["--depth=3", "--ohash=3"], "d3-b1-hash4", budget=1, deadline_s=200, jobs=JOBS)
+        ck.explore(P, ["--depth=3", "--ohash=0"], "d3-b1-hash-default", budget=1, deadline_s=200, jobs=JOBS)
+        ck.explore(A, ["--depth=3", "--ohash=2"], "d3-b1-hash2-asan", budget=1, deadline_s=500, jobs=JOBS)
     ck.finish(vlib.mc_coverage(ck.parts, RULE), assumptions=ASSUME)
 
 
 def selftest(ck):
-    return 1
+    """break the model / the environment, the oracle must fire"""
+    ex = build(ck)
+    bad = 0
+    for st, what in ((1, "model loses the moves of O2"), (2, "model never destructs O1"),
+                     (3, "a destructed object is put back into the name hash behind the driver's back")):
+        ck2 = vlib.Check("C08", "quick", 0, LEVEL)
+        ck2.explore(ex["h_c08"], ["--depth=2", "--ohash=2", "--init=2", "--selftest=%d" % st], "selftest%d" % st, budget=0, jobs=JOBS)
+        if not ck2.fails:
+            print("SELFTEST-FAILED C08 variant %d (%s) raised nothing" % (st, what)); bad = 1
+        else:
+            print("selftest %d ok (%s): %s" % (st, what, sorted(ck2.fails)[:4]))
+    return bad
